@@ -6,7 +6,10 @@ VARIANTS = {"vsbx": ([], "tree", 8), "noop": (["-DCALLS_NOOP"], "treen", 64), "n
             # the bundled dylib backend, executed for real: the guest functions live in a shared object the backend dlopens
             # the two notification hooks WITHOUT RLBOX_MEASURE_TRANSITION_TIMES: notifications must not depend on the timing option
             "noop_hooks": (["-DCALLS_NOOP", "-DCALLS_NO_TIMES"], "treenh", 64),
-            "dylib": (["-DCALLS_DYLIB"], "treen", 64), "dylib_tls": (["-DCALLS_DYLIB", "-DCALLS_EMBEDDER_TLS"], "treen", 64)}
+            # a client that defines only ONE of the two hooks
+            "noop_in": (["-DCALLS_NOOP", "-DCALLS_NO_TIMES", "-DCALLS_ONLY_IN"], "treeni", 64),
+            "noop_out": (["-DCALLS_NOOP", "-DCALLS_NO_TIMES", "-DCALLS_ONLY_OUT"], "treeno", 64),
+            "dylib": (["-DCALLS_DYLIB", "-DCALLS_EXPORTS_OWN_SYMBOL", "-rdynamic"], "treen", 64), "dylib_tls": (["-DCALLS_DYLIB", "-DCALLS_EMBEDDER_TLS", "-DCALLS_EXPORTS_OWN_SYMBOL", "-rdynamic"], "treen", 64)}
 
 
 def build(variant):
@@ -126,6 +129,13 @@ def parse_log(line):
 
 def oracle_c19(toks, line):
     """bracket grammar by a stack automaton + one timing record per crossing"""
+    if toks[0] in ("treeni", "treeno"):
+        # only one hook is defined: no brackets to match; every crossing must still carry its one notification of that hook, at its
+        # place among the other events of the tree (walk of the tree against the log)
+        p = parse_log(line)
+        if p is None or "STALE-STATE" in p[0]:
+            return False
+        return oracle_c12(toks, line)
     p = parse_log(line)
     if p is None:
         return False
@@ -174,6 +184,9 @@ def oracle_scenarios(toks, line):
     entry point still runs the function it was handed out for"""
     if toks[0] == "dywho":
         return line in ("ok 101 202", "na")
+    if toks[0] == "dymiss":
+        # the instance bound to the library that exports the name runs that library's function; the other one aborts
+        return line in ("ok 111 abort", "na")
     if toks[0] == "cbptr":
         return line == f"ok {int(toks[2])}"
     if toks[0] == "cbmany":
@@ -183,7 +196,7 @@ def oracle_scenarios(toks, line):
 
 
 def oracle_c12(toks, line):
-    if toks[0] in ("cbptr", "cbmany", "dywho"):
+    if toks[0] in ("cbptr", "cbmany", "dywho", "dymiss"):
         return oracle_scenarios(toks, line)
     """every executed callback node: the function registered for that entry point on the executing sandbox runs,
     once, with the executing sandbox and the guest's argument; its result reaches the guest unless something faulted"""
@@ -223,6 +236,9 @@ def oracle_c12(toks, line):
         return tree[pos[0] - 1]
 
     def expect(pat):
+        # single-hook builds: the notifications of the hook that is not defined are simply absent
+        if (toks[0] == "treeni" and pat[:2] in ("oI", "oC")) or (toks[0] == "treeno" and pat[:2] in ("iI", "iC")):
+            return True
         if ev[0] >= len(body):
             return None
         m = re.match(pat, body[ev[0]])
